@@ -8,7 +8,10 @@ def run(ctx):
                        "requests fit; 8-27 concurrent calls from 2-6 clients; handlers count concurrency (atomic high-water mark) and block on a gate. Monitors: "
                        "high-water <= W; a sampler goroutine and every handler read Server.RequestsMemory(): cur <= limit always; no call completes while all "
                        "handlers are blocked; no call is rejected; after the gate opens every call completes (excess load waited) and the accounted memory "
-                       "returns to 0. -race build. distinct_nontrivial = distinct (W, clients, calls).")
+                       "returns to 0. The harness's own account (requests inside handlers x max(body, RequestBufSize)) must stay within the limit too. Scenarios: a bare packet "
+                       "connection with two requests in handlers announces a third, larger one that waits for memory, goes away, its handlers finish one after the other, new load "
+                       "arrives; a server whose workers are left idle beyond the pool's 60 s collection time while the other rounds run and is saturated again at the end. "
+                       "-race build. distinct_nontrivial = distinct (W, clients, calls).")
     env = {"VERIF_N": 60 if thorough else 6}
     tot = {}
     for gmp in ([16] if not thorough else [2, 16]):
